@@ -1048,6 +1048,20 @@ def result_ids(res, ids):
     return [ids.of(x["key"], x["elat"]) for x in res]
 
 
+def _killed_workers(obs):
+    """Workers the coordinator cut off: those that died from a signal, and those it killed right after it had seen
+    them alive (a worker that is about to exit on its own may then still leave with exit code 0: the coordinator has
+    ended the search all the same, which is what the warning reports)."""
+    killed = set(w for w, x in enumerate(obs["exitcodes"]) if x is not None and x < 0)
+    last_alive = {}
+    for e in obs["raw"]:
+        if e["k"] == "alive":
+            last_alive[e["w"]] = bool(e["v"])
+        elif e["k"] == "kill" and e.get("w", -1) >= 0 and last_alive.get(e["w"]):
+            killed.add(e["w"])
+    return sorted(killed)
+
+
 def real_case(cid, obs, kernel, table, ids, seq=None, kind="cyc", edges=None, sample=None):
     """observation of run_real -> case for Trace_LCDSearch"""
     pos = positions(kernel)
@@ -1064,7 +1078,7 @@ def real_case(cid, obs, kernel, table, ids, seq=None, kind="cyc", edges=None, sa
     c = {"id": cid, "kind": kind, "n": obs["n"], "nw": obs["nw"], "to": obs["timeout"] != -1, "events": events,
          "obs": {"result": robs, "timed_out": obs["timed_out"],
                  "order": True if seq is None else same_order(obs["lcd"], seq["order"]),
-                 "killed": [w for w, x in enumerate(obs["exitcodes"]) if x is not None and x < 0],
+                 "killed": _killed_workers(obs),
                  "orphans": len(obs["left"]) + len([a for a in obs["active"] if a not in [l[0] for l in obs["left"]]]),
                  "dups": len(obs["defects"])}}
     # whether the time limit had passed when the first worker was killed, by the harness's own clock (the
